@@ -14,7 +14,7 @@ import scenarios
 import tlaparse
 import vlib
 
-GEN = os.path.join(vlib.CACHE, "olcart_gen")
+GEN = os.path.join(vlib.CACHE, "olcart_gen_%d" % os.getpid())
 
 # protection flag -> scenario (init keys, programs) in which its absence must be refuted
 KILLERS = {
@@ -50,9 +50,22 @@ def hook_of(pc):
     return HOOK_OF_PC[pc]
 
 
+_prepared = False
+
+
+def prepare():
+    """copy the base module once (never while TLC jobs of this process may be reading it)"""
+    global _prepared
+    if not _prepared:
+        os.makedirs(GEN, exist_ok=True)
+        tmp = os.path.join(GEN, "OlcArt.tla.tmp%d" % os.getpid())
+        shutil.copy(os.path.join(vlib.SPEC, "OlcArt.tla"), tmp)
+        os.replace(tmp, os.path.join(GEN, "OlcArt.tla"))
+        _prepared = True
+
+
 def gen(name, init, progs, **kw):
-    os.makedirs(GEN, exist_ok=True)
-    shutil.copy(os.path.join(vlib.SPEC, "OlcArt.tla"), GEN)
+    prepare()
     return olcart_scen.generate(name, init, progs, outdir=GEN, **kw)
 
 
